@@ -577,35 +577,44 @@ func (s *Store) gcIndex(ctx context.Context) error {
 	}
 
 	// index referrer manifests
-	for ref, desc := range refMap {
-		if ref != desc.Digest.String() || tagged.Contains(desc.Digest) {
-			continue
-		}
-		// check if the referrers manifest can traverse to the existing graph
-		subject := &desc
-		for {
-			verifhook.AtKey("oci.gcIndex.subjectStep", desc.Digest.String())
-			var err error
-			subject, err = manifestutil.Subject(ctx, s.storage, *subject)
-			if err != nil {
-				if errors.Is(err, errdef.ErrNotFound) {
-					// the chain is broken, desc cannot reach the existing graph
+	// Keeping a referrer grows the graph that other referrers may reach, so
+	// repeat until no more referrer is kept; otherwise the result depends on
+	// the iteration order of the map.
+	for changed := true; changed; {
+		changed = false
+		for ref, desc := range refMap {
+			if ref != desc.Digest.String() || tagged.Contains(desc.Digest) {
+				continue
+			}
+			// check if the referrers manifest can traverse to the existing graph
+			subject := &desc
+			for {
+				verifhook.AtKey("oci.gcIndex.subjectStep", desc.Digest.String())
+				var err error
+				subject, err = manifestutil.Subject(ctx, s.storage, *subject)
+				if err != nil {
+					if errors.Is(err, errdef.ErrNotFound) {
+						// the chain is broken, desc cannot reach the existing graph
+						break
+					}
+					return err
+				}
+				if subject == nil {
 					break
 				}
-				return err
-			}
-			if subject == nil {
-				break
-			}
-			if graph.Exists(*subject) {
-				if err := tagResolver.Tag(ctx, deleteAnnotationRefName(desc), desc.Digest.String()); err != nil {
-					return err
+				if graph.Exists(*subject) {
+					if err := tagResolver.Tag(ctx, deleteAnnotationRefName(desc), desc.Digest.String()); err != nil {
+						return err
+					}
+					plain := descriptor.Plain(desc)
+					if err := graph.IndexAll(ctx, s.storage, plain); err != nil {
+						return err
+					}
+					// kept: skip it in the next rounds
+					tagged.Add(desc.Digest)
+					changed = true
+					break
 				}
-				plain := descriptor.Plain(desc)
-				if err := graph.IndexAll(ctx, s.storage, plain); err != nil {
-					return err
-				}
-				break
 			}
 		}
 	}
